@@ -156,6 +156,12 @@ func (s *subRun) produce(kind string) {
 	if s.down() {
 		return
 	}
+	h0 := s.producePre(kind)
+	s.produceStep()
+	s.producePost(h0)
+}
+
+func (s *subRun) producePre(kind string) int {
 	h0 := s.height()
 	if uint64(h0) >= s.w.Genesis.InitialHeight { // the first block is the pre-built genesis block
 		lt := 0
@@ -174,10 +180,17 @@ func (s *subRun) produce(kind string) {
 	}
 	ph, pd := s.n.M.VerifPendingCounts()
 	s.c.Tr.Emit("StepBegin", world.F{"node": "seq", "pendH": int(ph), "pendD": int(pd), "limit": int(s.limit), "height": h0})
+	return h0
+}
+
+func (s *subRun) produceStep() {
 	err := s.n.Step(context.Background())
 	if err != nil && !errors.Is(err, world.ErrCrashed) {
 		s.c.Tr.Emit("Halt", world.F{"node": "seq"})
 	}
+}
+
+func (s *subRun) producePost(h0 int) {
 	h1 := s.height()
 	if h1 == h0 {
 		// nothing produced: drop the reply that was queued for this step, if it was not consumed
@@ -189,6 +202,33 @@ func (s *subRun) produce(kind string) {
 	synctest.Wait()
 	s.reapDead()
 	s.n.Obs("produce")
+}
+
+// produceStalled takes a production step whose execution is parked in the execution layer while
+// virtual time passes (the submission loops tick in the middle of the step: after the early
+// save, before the block is committed); the execution then fails or succeeds.
+func (s *subRun) produceStalled(kind string, fail bool) {
+	if s.down() {
+		return
+	}
+	gate := make(chan struct{})
+	s.n.Exec.Gate = gate
+	if fail {
+		s.n.Exec.FailNext = 1
+	}
+	h0 := s.producePre(kind)
+	done := make(chan struct{})
+	go func() {
+		defer close(done)
+		s.produceStep()
+	}()
+	synctest.Wait() // the step is parked inside ExecuteTxs
+	time.Sleep(2 * daBlockTime)
+	synctest.Wait()
+	s.n.Exec.Gate = nil
+	close(gate)
+	<-done
+	s.producePost(h0)
 }
 
 // tick advances virtual time by one DA block time (both submission loops tick).
@@ -325,6 +365,39 @@ func RunSubmitScenarios(c *Ctx) {
 				s.settle(int(limit)+1, true)
 				c.Count("scenarios", 1)
 			})
+			// the loops tick in the middle of a production step (execution stalled), which then fails / succeeds
+			for _, fail := range []bool{true, false} {
+				for _, kind := range []string{"none", "a", "none-notick", "a-notick"} {
+					synctest.Run(func() {
+						s := newSubRun(c, fmt.Sprintf("execstall/ih%d/L%d/%v/%s", ih, limit, fail, kind), ih, limit, world.F{"src": "execstall"})
+						tickBefore := true
+						if len(kind) > 7 {
+							kind = kind[:len(kind)-7]
+							tickBefore = false
+						}
+						defer s.finish()
+						if s.start() != nil {
+							return
+						}
+						s.produce("none")
+						s.tick()
+						s.produce("none")
+						if tickBefore {
+							s.tick()
+						}
+						s.produceStalled(kind, fail)
+						s.tick()
+						if s.down() {
+							if s.n.M != nil {
+								s.stop(false)
+							}
+							s.start()
+						}
+						s.settle(int(limit)+1, kind == "none")
+						c.Count("scenarios", 1)
+					})
+				}
+			}
 			for r := 0; r < reps; r++ {
 				synctest.Run(func() {
 					s := newSubRun(c, fmt.Sprintf("faults/ih%d/L%d/%d", ih, limit, r), ih, limit, world.F{"src": "faults"})
